@@ -212,8 +212,9 @@ class Crazyflie():
         """Called from the link driver when there's an error"""
         logger.warning('Got link error callback [%s] in state [%s]',
                        errmsg, self.state)
-        if (self.link is not None):
-            self.link.close()
+        link = self.link
+        if (link is not None):
+            link.close()
         self.link = None
         self._answer_patterns = {}
         if (self.state == State.INITIALIZED):
@@ -282,8 +283,9 @@ class Crazyflie():
         logger.info('Closing link')
         if (self.link is not None):
             self.commander.send_setpoint(0, 0, 0, 0)
-        if (self.link is not None):
-            self.link.close()
+        link = self.link
+        if (link is not None):
+            link.close()
             self.link = None
         self._answer_patterns = {}
         self.disconnected.call(self.link_uri)
